@@ -11,20 +11,22 @@ CHECKS["C13"] = {
              "a walk over every family boundary of 2015..2035; TestPartition case non-trivial = timestamp within one interval "
              "of a family/segment boundary; TestRangeFamilies = range spans >= 2 families; TestPlannerInterval = planned range "
              "spans >= 2 families or interval ratio > 1; TestEngineFamilies (real engine: Shard.GetOrCrateDataFamily / Shard.GetDataFamilies for day-, month- and year-type "
-             "intervals, families clustered around a boundary-biased anchor, ranges starting/ending in neighbouring families and segments) = some range overlaps >= 2 existing families; "
+             "intervals, families clustered around a boundary-biased anchor, ranges starting/ending in neighbouring families and segments) = some range overlaps >= 2 existing families; written timestamps and range ends biased to calendar family boundaries (first/last ms of an existing or neighbouring family incl. the first family of a segment, +-1 ms, +-1 slot, interval-truncated ends = slot 0, single-millisecond ranges), oracle = existing families whose time range intersects the inclusive query range. "
+             "TestBrokerBatchFamilies = history of 4-12 acquire/write+release steps on 1-2 POOLED BrokerBatchRows objects (metric.NewBrokerBatchRows/Release) over 2-3 databases with generated intervals (grouping as replica.databaseChannel.Write: NewShardGroupIterator(1-4 shards), FamilyRowsForNextShard(interval), HasNextFamily/NextFamily), timestamps clustered around one boundary-biased anchor; every row handed out once, per shard every family once, group family time = calendar family of every row = CalcFamilyTime, [familyTime, CalcFamilyEndTime] contains the row; non-trivial = some batch object reused for a database of another interval type than its previous use. "
              "distinct = (interval(s), timestamp(s)) hash"),
-    "technique": "property-based testing (rapid) of the calculators and the planner against arithmetic invariants + exhaustive family-boundary walk",
+    "technique": "property-based testing (rapid) of the calculators and the planner against arithmetic invariants + exhaustive family-boundary walk; stateful histories over pooled batch objects (write-side family grouping) with a calendar (time.Date) reference",
     "level_text": ("Generated-input exploration: tens of thousands of boundary-biased (interval, timestamp) cases per run and a complete walk over "
                    "all family boundaries of 21 years check exactly the invariants the statement lists (containment, tiling, idempotence, slot bound, "
                    "planner multiple/alignment/cover). The functions are pure, so sampling + the exhaustive walk is the right level."),
-    "level_note": "Trusted: Go's time package as the calendar; TZ=UTC; window 2015..2035. The engine-level family lookup (TestEngineFamilies) goes through a real tsdb engine (sim/node).",
-    "assumptions": ["TZ=UTC (time.Local); DST zones out of scope", "timestamps restricted to 2015-01-01..2035-12-31"],
+    "level_note": "Trusted: Go's time package as the calendar; TZ=UTC; window 2015..2035. The engine-level family lookup (TestEngineFamilies) goes through a real tsdb engine (sim/node). Rollup-target interval segments are only populated by rollup jobs and are not queried in TestEngineFamilies (single-interval databases).",
+    "assumptions": ["TZ=UTC (time.Local); DST zones out of scope", "timestamps restricted to 2015-01-01..2035-12-31", "sync.Pool hands a released batch back on the same goroutine (class batch-object=reused-from-pool shows how often); an object new to a case is primed with one unchecked use so that the outcome does not depend on earlier cases", "EvictOutOfTimeRange is called with behind=ahead=0 in TestBrokerBatchFamilies (wall-clock independent)"],
     "tests": [
         {"name": "TestPartition", "quick": 20000, "thorough": {"checks": 200000, "shards": 8}},
         {"name": "TestRangeFamilies", "quick": 3000, "thorough": {"checks": 30000, "shards": 4}},
         {"name": "TestBoundaryWalk", "quick": {"short": True}, "thorough": {}},
         {"name": "TestPlannerInterval", "quick": 20000, "thorough": {"checks": 200000, "shards": 4}},
         {"name": "TestEngineFamilies", "quick": 400, "thorough": {"checks": 3000, "shards": 4}},
+        {"name": "TestBrokerBatchFamilies", "quick": 3000, "thorough": {"checks": 30000, "shards": 4}},
         {"name": "TestRegression_RangeStartingInPreviousMonth", "quick": {}, "thorough": {}},
     ],
 }
@@ -201,24 +203,27 @@ CHECKS["C16"] = {
     "pkg": "./c16/",
     "level": "exploration",
     "technique": ("property-based testing (rapid) of the production Parse entry points and batch iterators against a reference model + "
-                  "metamorphic relations (tag permutation, format, neighbours), batch histories over the sync.Pool, native fuzzing of the influx/flat parsers"),
+                  "metamorphic relations (tag permutation, format, neighbours), batch histories over the sync.Pool, the production replica.ChannelManager write path with a fake rpc stream factory, native fuzzing of the influx/flat parsers"),
     "rule": ("TestIngestRoute: a case is a history of 1-4 requests (format, namespace, enriched tags, limits, 1-200 metrics) against one "
              "database config (behind/ahead, intervals, 1-64 shards); non-trivial = >= 2 routed requests (pooled batch reused) and some "
              "request hits >= 2 shards and >= 2 families and has >= 1 evicted row. TestFormatsAgree: non-trivial = metric accepted, >= 2 "
-             "tags, compared in >= 2 formats. distinct = hash of config + every metric (timestamps as offsets from the case's now)"),
+             "tags, compared in >= 2 formats. distinct = hash of config + every metric (timestamps as offsets from the case's now). "
+             "TestChannelWrite: a case is one production ChannelManager (created through the shard-state callback) with 1-2 databases, each with its own write window (symmetric / behind>ahead / behind<ahead / one or both sides unlimited, 30m..7d), intervals and 1-64 shards, and a history of 1-4 requests (any format) to a drawn database; timestamps are drawn relative to BOTH spans incl. rows between the two spans; chunk block size default or 1/300/2048 B. non-trivial = a routed request to an asymmetric-window database with >= 1 row whose verdict would flip if the sides were exchanged, and >= 1 kept and >= 1 dropped row; distinct = hash of block size + database configs + every request"),
     "level_text": ("Generated-input exploration through the functions the HTTP handler and databaseChannel.Write call: every accepted row is "
                    "compared field-by-field with an independent model (last-wins dedup, xxhash of sorted tags, sanitising, limits), the "
                    "(shard,family,rows) triples are checked to be an exact partition with shard = jump hash < count and family containing the "
-                   "timestamp, dropped <=> outside the window, and the written bytes are re-read through StorageBatchRows."),
+                   "timestamp, dropped <=> outside the window, and the written bytes are re-read through StorageBatchRows. "
+                   "TestChannelWrite goes through ChannelManager.Write -> databaseChannel.Write -> familyChannel -> chunk -> rpc write stream with a fake stream factory: per request the database's out_of_time_range counter must grow by exactly the number of rows outside that database's window and Write must succeed; after stopping every shard channel (families flush and join) the storage side must have received exactly the in-window rows, each on the stream of shard = jump hash and of the family containing its timestamp."),
     "level_note": ("Trusted: xxhash library, timeutil calculators (C13), Go http/protobuf/flatbuffers. Clock: one now per case, timestamps >= 10 min "
                    "from the thresholds. GC is disabled inside a case and the batch pool emptied first, so pool reuse is deterministic. "
-                   "Out of scope by the statement: whether every well-formed influx line is accepted (a line without tags and >= 2 fields is refused by lindb; not generated)."),
+                   "Out of scope by the statement: whether every well-formed influx line is accepted (a line without tags and >= 2 fields is refused by lindb; not generated). TestChannelWrite drains with ShardChannel.Stop (as databaseChannel.Stop does) instead of ChannelManager.Close, because Close cancels the context first and the stream's recv loop may then refuse the last chunk (shutdown loss, outside C16; observation). One live node, every shard has a channel; shard-count changes and leader changes are not generated."),
     "assumptions": ["request namespace non-empty and within limits, enriched tags non-empty/within limits/unique keys (the handler guarantees this)",
                     "timestamps never 0 and >= 10 min away from the window thresholds", "one goroutine (no concurrent requests)",
-                    "flat rows < 10 KiB; -0.0 not generated (not representable on either wire)"],
+                    "flat rows < 10 KiB; -0.0 not generated (not representable on either wire)", "database channels are created once per database (options do not change during a case)"],
     "tests": [
         {"name": "TestIngestRoute", "quick": 2000, "thorough": {"checks": 10000, "shards": 16}},
         {"name": "TestFormatsAgree", "quick": 2000, "thorough": {"checks": 20000, "shards": 8}},
+        {"name": "TestChannelWrite", "quick": 2000, "thorough": {"checks": 10000, "shards": 8}},
         {"name": "TestRegression_StaleOutOfRangeFlag", "quick": {}, "thorough": {}},
         {"name": "TestRegression_FlatRequestNamespaceIgnored", "quick": {}, "thorough": {}},
         {"name": "TestRegression_ProtoDedupUnstableSort", "quick": {}, "thorough": {}},
@@ -443,15 +448,15 @@ CHECKS["C04"] = {
                   "query-level cross-check through the production planner"),
     "rule": ("case = database intervals (source 1..60 s dividing 5 min; month-type target 5/10/15/30 min and/or year-type target 1/2/3/4/6 h), 1-3 source families around boundary dates "
              "(month ends, leap day, year end/start, 23:00 + next day 00:00), 1-3 metrics x 1-5 fields (sum/min/max/last/first, values k/8) x 1-5 series, sparse/dense/out-of-order slots with ms jitter, "
-             "history of write / flush(all|some families) / rollup(kv.VerifRollup per family | Store.ForceRollup) / reopen steps; a rollup step may carry one crash image "
+             "history of write / flush(all|some families) / rollup(kv.VerifRollup per family | Store.ForceRollup) / reopen / evict (Engine.EvictSegment: every target segment without a loaded tsdb data family, i.e. not looked up by a query, is closed; then a query lookup Shard.GetDataFamilies reopens a drawn subset of the target intervals) / query lookup of one target interval steps; a write goes either through the data family the writer holds (existing WAL partition, target segments stay closed) or through Shard.GetOrCrateDataFamily (new partition, reopens them); a rollup step may carry one crash image "
              "(before the source commit, between the two target commits, before the first / between the reference clean-ups; 1 or 2 restarts, then rollup twice) or 1-2 harness-owned interleavings "
              "(at the table-create seam of the job's output in the target family a write + flush of a source family - usually the job's own - runs on the job's goroutine: that file is not an input of the running job and must keep waiting); "
              "up to 3 queries group by time(target). "
              "After EVERY step all blocks of all families of all segments of each target interval must equal the field-type aggregate of exactly the points of the source files rolled up so far, "
-             "at the segment/family/slot computed with Go's calendar; after a rollup: source rollup files == files not yet rolled up, no target reference files. "
+             "at the segment/family/slot computed with Go's calendar; a rollup job merges into an interval only if its target segment is open (store manager), otherwise the files keep waiting for that interval; after every step every OPEN target segment equals the aggregate of the files rolled up into THAT interval so far (closed ones are read when reopened, all of them through the shard at the end of the history); after a rollup: source rollup files == per file exactly the intervals it has not been rolled up into, no target reference files. "
              "non-trivial = some target slot is fed by >= 2 source slots and >= 2 source files were rolled up; distinct = hash of the complete plan (JSON)"),
     "level_text": ("Generated-history exploration over the production flush and rollup code (kv family.rollup/doRollupWork, metricsdata merger, tsdb segment naming). Every written point is kept in a plain model; "
-                   "the oracle never uses lindb's interval calculators. 600 cases per quick run (about 2/3 non-trivial; both calculator pairs, two-target configurations, >= 2 target families/segments, "
+                   "the oracle never uses lindb's interval calculators. 600 cases per quick run (about 2/3 non-trivial; both calculator pairs, two-target configurations (1/2 of the cases), evict/skip/catch-up episodes, >= 2 target families/segments, "
                    "rollup repeated, repeated after reopen, crash images of all four kinds each counted in the class histogram)."),
     "level_note": ("Trusted: the metricsdata reader (C03), the metadata/index lookups used to map ids back to names (C09/C10), Go's time package, TZ=UTC. first/last are checked as membership in the contributed values "
                    "(the merge order across source files is a map iteration order). Crash = process death (directory image), not power loss. "
@@ -460,6 +465,7 @@ CHECKS["C04"] = {
                     "source interval is day-type; month->year rollup and histogram fields are not generated",
                     "source families are not compacted before the rollup in the asserted test",
                     "after a restart the source families are reopened the way the next write does (Shard.GetOrCrateDataFamily), which also opens the target segments",
+                    "whether a target segment is open is read from the store manager, the predicate production uses", "source data families are never evicted",
                     "TZ=UTC"],
     "tests": [
         {"name": "TestRollup", "quick": 600, "thorough": {"checks": 4000, "shards": 16}},
